@@ -75,7 +75,7 @@ package store
 //@   modifies nothing
 
 //@ func Momentum.GetFrontierMomentum(self) -> (m, err)
-//@   ensures err == nil ==> m != nil && m.Height == self.idHeight && m.Hash == self.idHash
+//@   ensures err == nil ==> m != nil && m.Height == self.idHeight && m.Hash == self.idHash && m.TimestampUnix == self.idTimestamp
 //@   modifies nothing
 
 //@ func Momentum.GetAccountBlockByHash(self, hash) -> (b, err)
@@ -113,4 +113,8 @@ package store
 
 //@ func Momentum.GetMomentumByHeight(self, height) -> (m, err)
 //@   ensures err == nil ==> int(m) == self.momentumAt[height]
+//@   modifies nothing
+
+//@ model Momentum idTimestamp int   // TimestampUnix of the momentum this store is the state of
+//@ func Momentum.GetFrontierAccountBlock(self, address) -> (b, err)
 //@   modifies nothing
